@@ -281,7 +281,7 @@ theorem GoMap.mem_of_get? {β} {m : GoMap β} {k : GoString} {v : β} (h : m.get
       exact List.mem_cons_of_mem _ (ih h)
 
 /-- The value of a declared attribute of a well-formed resource. -/
-theorem wf_attr {r : ResView} (hwf : r.wf = true) {name : GoString} {at' : Attr}
+theorem wf_attr_rg {r : ResView} (hwf : r.wf = true) {name : GoString} {at' : Attr}
     (h : r.attrs.get? name = some at') :
     ∃ k, Kind.ofCode? at'.ty = some k ∧
       ((r.get name).hasAttrType k at'.nullable = true ∨
@@ -306,7 +306,7 @@ theorem wf_getAttrVal {r : ResView} (hwf : r.wf = true) {name : GoString} {at' :
           sval (r.get name) = .pay p) ∨
        (at'.nullable = true ∧ ∃ op, getAttrVal r name = .ptr k op ∧
           (∀ x, op = some x → k.payOk x = true) ∧ sval (r.get name) = sval (.ptr k op))) := by
-  obtain ⟨k, hk, hv⟩ := wf_attr hwf h
+  obtain ⟨k, hk, hv⟩ := wf_attr_rg hwf h
   refine ⟨k, hk, ?_⟩
   unfold getAttrVal
   rcases hv with hv | ⟨hn, hv⟩
@@ -428,7 +428,7 @@ theorem cmpField_trLe {rule : GoString} (ht : RuleTyped col rule) {a b c : ResVi
   · by_cases hid : (splitRule rule).2 = idName
     · simp only [hid, if_true]; exact cmpIds_trLe _ _ _
     · simp only [hid, if_false]
-      obtain ⟨k, hk, _⟩ := wf_attr (hwf a ha) (ht a ha)
+      obtain ⟨k, hk, _⟩ := wf_attr_rg (hwf a ha) (ht a ha)
       exact cmpSVal_trLe (wf_payClass (hwf a ha) (ht a ha) hk)
         (wf_payClass (hwf b hb) (ht b hb) hk) (wf_payClass (hwf c hc) (ht c hc) hk)
 
